@@ -3,6 +3,8 @@
 package consul
 
 import (
+	"net/http"
+
 	"github.com/fabiolb/fabio/config"
 	"github.com/hashicorp/consul/api"
 )
@@ -25,6 +27,16 @@ func VerifChecksWithTagPrefix(prefix string, checks api.HealthChecks) api.Health
 // Consul HTTP API at cfg.Addr answers (the harness points it at an httptest fake).
 func VerifMakeConfig(cfg *config.Consul, dc string, passing []*api.HealthCheck) (string, error) {
 	c, err := api.NewClient(&api.Config{Address: cfg.Addr, Scheme: cfg.Scheme})
+	if err != nil {
+		return "", err
+	}
+	return NewServiceMonitor(c, cfg, dc).makeConfig(passing), nil
+}
+
+// VerifMakeConfigClient is VerifMakeConfig with the HTTP client of the Consul API client supplied by the caller (one
+// client with keep-alive connections for a whole harness run, so that a case does not cost an ephemeral port).
+func VerifMakeConfigClient(cfg *config.Consul, dc string, passing []*api.HealthCheck, hc *http.Client) (string, error) {
+	c, err := api.NewClient(&api.Config{Address: cfg.Addr, Scheme: cfg.Scheme, HttpClient: hc})
 	if err != nil {
 		return "", err
 	}
